@@ -120,9 +120,17 @@ class Packet(_with_metaclass(bisturi.packet_builder.MetaPacket, object)):
 
     def unpack_impl(self, raw, offset, **k):
         k['innermost-pkt-pos'] = offset
+        name = None
         try:
             for name, f, _, unpack in self.get_fields():
                 offset = unpack(pkt=self, raw=raw, offset=offset, **k)
+
+            # a failing descriptor hook is a failure of this packet too
+            for sync in self.get_sync_after_unpack_methods():
+                name = getattr(
+                    getattr(sync, '__self__', None), 'real_field_name', name
+                )
+                sync(self)
         except PacketError as e:
             e.add_parent_field_and_packet(
                 offset, name, self.__class__.__name__
@@ -133,7 +141,6 @@ class Packet(_with_metaclass(bisturi.packet_builder.MetaPacket, object)):
                 True, name, self.__class__.__name__, offset, str(e)
             ) from None
 
-        [sync(self) for sync in self.get_sync_after_unpack_methods()]
         return offset
 
     def pack(self):
@@ -146,10 +153,16 @@ class Packet(_with_metaclass(bisturi.packet_builder.MetaPacket, object)):
             raise e from None
 
     def pack_impl(self, fragments, **k):
-        [sync(self) for sync in self.get_sync_before_pack_methods()]
-        k['innermost-pkt-pos'] = fragments.current_offset
-
+        name = None
         try:
+            # a failing descriptor hook is a failure of this packet too
+            for sync in self.get_sync_before_pack_methods():
+                name = getattr(
+                    getattr(sync, '__self__', None), 'real_field_name', name
+                )
+                sync(self)
+
+            k['innermost-pkt-pos'] = fragments.current_offset
             for name, f, pack, _ in self.get_fields():
                 pack(pkt=self, fragments=fragments, **k)
         except PacketError as e:
